@@ -121,6 +121,26 @@ func genCase(t *rapid.T) arith.Case {
 				c.X.Coeff += "000"
 				c.X.Exp = -3
 			}
+		} else if gen.Pick(t, 400, "exptiny") == 1 {
+			// tiny arguments m*10^-k at a Precision around k itself, in the tens of thousands:
+			// cheap (the result is 1 + x + x^2/2 to working precision) and the region where the
+			// terms of a series, numbers of Precision digits around 10^-k, have exponents beyond
+			// the package limits
+			k := []int{1700, 5000, 20000, 33400, 45000, 50001, 60000, 99000}[gen.Pick(t, 8, "etk")] + rapid.IntRange(0, 3).Draw(t, "etkd")
+			c.X = core.Dec{Coeff: gen.DigitsN(t, rapid.IntRange(1, 5).Draw(t, "etl"), 9, "etc"), Neg: rapid.Bool().Draw(t, "etn")}
+			if c.X.Coeff == "0" {
+				c.X.Coeff = "7"
+			}
+			c.X.Exp = int32(-k - len(c.X.Coeff) + 1)
+			if -k-len(c.X.Coeff)+1 < -gen.Limit {
+				c.X.Exp = -gen.Limit
+			}
+			c.Ctx.P = uint32(k + []int{-300, -2, 0, 1, 5, 600, 1500}[gen.Pick(t, 7, "etp")])
+			c.Ctx.Emax, c.Ctx.Emin = gen.Limit, -gen.Limit
+			if gen.Pick(t, 3, "etr") == 0 {
+				c.Ctx.Emax, c.Ctx.Emin = 1000, -1000
+			}
+			c.Note = "exptiny-hugeprec"
 		} else if gen.Pick(t, 12, "bigarg") == 0 { // large arguments (results far from 1, over/underflow)
 			v := rapid.IntRange(1000, 240000).Draw(t, "big")
 			c.X = core.Dec{Coeff: fmt.Sprint(v) + gen.Digits(t, 6, "tail"), Neg: rapid.Bool().Draw(t, "bneg")}
@@ -267,6 +287,9 @@ func enclose(c arith.Case) (e encl, neg bool) {
 		if adj > 0 {
 			w += adj
 		}
+		if e, ok := encloseTinyExp(c); ok {
+			return e, false
+		}
 		f := ref.NewFP(w)
 		r := f.Exp(f.FromDec(c.X.Neg, c.X.Big(), int64(c.X.Exp)))
 		return encl{signedExact(r.Lo, w, r.N), signedExact(r.Hi, w, r.N), true}, false
@@ -297,6 +320,36 @@ func enclose(c arith.Case) (e encl, neg bool) {
 		return encl{signedExact(r.Lo, w, r.N), signedExact(r.Hi, w, r.N), true}, false
 	}
 	return encl{}, false
+}
+
+// encloseTinyExp handles Exp of a tiny argument at a precision in the thousands without a
+// series at that precision: e^x = 1 + x + x^2/2 + t with |t| <= |x|^3/5 for |x| < 0.1, and
+// 1 + x + x^2/2 = 5*(2*10^(-2e) + 2m*10^-e + m^2) * 10^(2e-1) exactly for x = m*10^e.
+func encloseTinyExp(c arith.Case) (encl, bool) {
+	p := int64(c.Ctx.P)
+	e := int64(c.X.Exp)
+	m := c.X.Big()
+	nd := ref.NDigits(m)
+	adj := e + nd - 1
+	if p < 1500 || e >= 0 || 3*adj+3 > -(p+12) {
+		return encl{}, false
+	}
+	if c.X.Neg {
+		m.Neg(m)
+	}
+	n := new(big.Int).Lsh(ref.Pow10(-2*e), 1)
+	n.Add(n, new(big.Int).Lsh(new(big.Int).Mul(m, ref.Pow10(-e)), 1))
+	n.Add(n, new(big.Int).Mul(m, m))
+	n.Mul(n, big.NewInt(5))
+	ex := 2*e - 1
+	sl := e + 3*nd + 1 // exponent of the slack 10^(3*adj+3) relative to ex
+	if sl < 0 {
+		n.Mul(n, ref.Pow10(-sl))
+		ex += sl
+		sl = 0
+	}
+	slack := ref.Pow10(sl)
+	return encl{signedExact(new(big.Int).Sub(n, slack), 0, ex), signedExact(new(big.Int).Add(n, slack), 0, ex), true}, true
 }
 
 // encloseNearOne handles x = 1 + d with |d| < 10^-(P+12) without thousands of digits of
@@ -636,6 +689,9 @@ func check(c arith.Case, st *core.Stats) error {
 		st.Class("precision>60")
 		if p > 1000 {
 			st.Class("precision>1000")
+		}
+		if c.Note == "exptiny-hugeprec" {
+			st.Class("exp-tiny-argument-at-precision-around-its-size")
 		}
 		if c.Note == "tinyeps-hugeprec" {
 			st.Class("ln-near-one-at-precision-beyond-the-difference")
